@@ -463,9 +463,38 @@ pub async fn run_events(seed: u64, events: &[Ev], base: &Path, tag: &str) -> R<R
             Ev::Write { stmts } => {
                 stats.ev("Write");
                 let api = stmts.iter().map(|s| stmt(&s.sql, s.params.iter().map(|p| p.to_param()).collect())).collect();
-                let (status, _) = n.write(api, None).await?;
+                let (status, resp) = n.write(api, None).await?;
                 let _ = std::mem::take(&mut n.outbox);
+                if std::env::var_os("VERIF_TRACE").is_some() && status != 200 {
+                    eprintln!("LOG   write failed: {:?}", crate::node::exec_errors(&resp));
+                }
                 log.push(format!("write {status}"));
+                stats.oracle_checks += 1;
+                // only statements that fit the database as it is (a minimised history may have
+                // lost the submission that created the table)
+                let fits = {
+                    let snap = snapshot(n).await?;
+                    stmts.iter().all(|st| {
+                        let rest = st.sql.strip_prefix("INSERT INTO ").unwrap_or("");
+                        let (t, rest) = rest.split_once(" (").unwrap_or(("", ""));
+                        let cols = rest.split_once(')').map(|x| x.0).unwrap_or("");
+                        match snap.tables.get(t) {
+                            Some(tc) => cols.split(',').all(|c| tc.contains_key(c.trim())),
+                            None => false,
+                        }
+                    })
+                };
+                if status != 200 && fits {
+                    // the statements only use tables / columns of accepted submissions: the node
+                    // must still be able to work with the schema it has
+                    let mut v = vio(
+                        "valid-write-fails-after-schema-submissions",
+                        json!({"status": status, "errors": crate::node::exec_errors(&resp), "statements": stmts.iter().map(|s| s.sql.clone()).collect::<Vec<_>>()}),
+                    );
+                    v.step = i + 1;
+                    violation = Some(v);
+                    break 'outer;
+                }
             }
             Ev::Crash | Ev::Restart => {
                 let crash = matches!(ev, Ev::Crash);
@@ -514,6 +543,9 @@ pub async fn run_events(seed: u64, events: &[Ev], base: &Path, tag: &str) -> R<R
     stats.converged = violation.is_none();
     let mut h = 0xcbf2_9ce4_8422_2325;
     for l in &log {
+        if std::env::var_os("VERIF_TRACE").is_some() {
+            eprintln!("LOG {l}");
+        }
         fnv(&mut h, l.as_bytes());
     }
     drop(node);
